@@ -99,14 +99,14 @@ fn k_c03_path(depth: u8) {
 
 /// every point of the HEALPix image: hash_with_dxdy total, in range, offsets finite in [0, 1] up to rounding, cell contains the point,
 /// and sph_coo inverts it whenever both offsets are in [0, 1)
-fn k_c03_image(depth: u8) {
+fn k_c03_image(depth: u8, region: u8) {
   let x: f64 = kani::any();
   let y: f64 = kani::any();
   kani::assume(in_image(x, y, 8.881784197001252e-16));
+  kani::assume(match region { 0 => y > 1.0, 1 => y >= -1.0 && y <= 1.0, _ => y < -1.0 });
   set_plane(x, y);
   let layer = hp::nested::get_or_create(depth);
-  kani::cover!(y == 2.0, "north pole");
-  kani::cover!(y > 1.0 && x == 4.0, "on a polar seam");
+  kani::cover!(x == 4.0, "x = 4 (seam or base cell corner line)");
   kani::cover!(x == 8.0, "x = 8");
   let (h, dx, dy) = layer.hash_with_dxdy(0.0, 0.0);
   assert!(h < spec_n_hash(depth), "C03: hash_with_dxdy out of range");
